@@ -124,6 +124,8 @@ def finding_key(case, verdict, detail, eng_out):
         return 'aggregation:aggr-clause-having-on-component-not-aggregated-by-every-item:SemanticError-%s' % verdict.rsplit(':', 1)[1]
     if verdict.startswith('REJECT:semantic:') and st == 'having-count-vs-aggregate':
         return 'aggregation:having-compares-count-with-another-aggregate:SemanticError-%s' % verdict.rsplit(':', 1)[1]
+    if verdict.startswith('REJECT:semantic:') and st == 'having-without-result-identifiers':
+        return 'aggregation:having-when-the-result-has-no-identifiers:SemanticError-%s' % verdict.rsplit(':', 1)[1]
     if verdict == 'DISAGREE:engine-error' and eng_out[0] == 'raw':
         cls = eng_out[1].split('.')[-1]
         if st == 'minmax-no-measures-ungrouped':
@@ -138,8 +140,10 @@ def finding_key(case, verdict, detail, eng_out):
     return 'aggregation:%s:%s:%s:group-%s%s' % (st, what, ops, case['grouping'], ':having' if case['having'] else '')
 
 
-def run_stream(ck, label, cases):
-    answers = ck.driver('Aggr', [GA.request(c) for c in cases])
+def run_stream(ck, label, cases, extra=()):
+    answers = ck.driver('Aggr', [GA.request(c) for c in cases] + [GA.request(c) for c in extra])
+    extra_ans = answers[len(cases):]
+    answers = answers[:len(cases)]
     outs = R.run_engine(cases, budget=120)
     res = []
     for c, a, e in zip(cases, answers, outs):
@@ -155,27 +159,25 @@ def run_stream(ck, label, cases):
             base, alt = dec_answer(res[i][4]), dec_answer(pa)
             if base[0] == 'ok' and alt[0] == 'ok' and sorted(map(str, base[3])) != sorted(map(str, alt[3])):
                 res[i][1] = 'skip:float-sensitive-having'
-    return res
+    return res, extra_ans
 
 
 def main(ck):
     pr = ck.proof('C03')
     q = ck.quick()
-    n_main = int(os.environ.get('VERIF_N', 0)) or (260 if q else 4000)
+    n_main = int(os.environ.get('VERIF_N', 0)) or (200 if q else 4000)
     g = GA.AggrGen(ck.rng)
     main_cases = [g.case() for _ in range(n_main)]
-    side = [g.rejected_having([0.1, 0.4, 0.6, 0.9][i % 4]) for i in range(8 if q else 40)] + [g.group_all() for _ in range(10 if q else 80)]
+    side = [g.rejected_having([0.1, 0.4, 0.55, 0.65, 0.9][i % 5]) for i in range(10 if q else 50)] + [g.group_all() for _ in range(10 if q else 80)] + [g.group_all_time() for _ in range(16 if q else 200)]
     # empty operands in every form (the generator reaches them only now and then)
     for _ in range(8 if q else 60):
         c = g.case(ck.rng.choice(['standalone', 'clause']))
         c['env']['DS_1']['rows'] = []
         c.update(nrows=0, ngroups=0, max_group=0, maxabs=0.0)
         main_cases.append(c)
-    res = run_stream(ck, 'main', main_cases + side)
-
-    # ---- model against the Reference Manual's examples (independent oracle) and the engine on them
+    # ---- model against the Reference Manual's examples (independent oracle)
     rm_cases = [c for c in (rm_case(n) for n in sorted(RM)) if c]
-    rm_ans = ck.driver('Aggr', [GA.request(c) for c in rm_cases])
+    res, rm_ans = run_stream(ck, 'main', main_cases + side, extra=rm_cases)
     rm_bad = []
     for c, a in zip(rm_cases, rm_ans):
         ok, why = rm_agrees(c, a)
@@ -254,7 +256,8 @@ def main(ck):
                'modelled not verified: DuckDB evaluation of the generated SQL (SUM/AVG/MEDIAN/VAR_*/STDDEV_* on DECIMAL/DOUBLE)')
     ck.assumptions += ['VTL aggregate semantics as restated in lean/VtlModel/Sem/Aggr.lean, validated on the Reference-Manual examples '
                        'RM135-RM150, RM166-RM168; adopted behaviours listed in coverage.adopted_behaviours',
-                       '`group all` with a time aggregation (time_agg) needs Date/Time_Period values, which the value model does not have: not modelled',
+                       '`group all time_agg` is modelled for the conversion of a Time_Period identifier to the year ("A"); other target '
+                       'frequencies and Date identifiers need calendar arithmetic the value model does not have',
                        'well-typed scripts (cases rejected by semantic analysis are counted, not compared, unless the rejection itself is a finding)']
 
 
